@@ -106,13 +106,14 @@ pub fn values(s: &mut Session, cmd: &Value) -> Value {
 pub fn dqe(s: &mut Session, cmd: &Value) -> Value {
     use chumsky::Parser;
     let exprs: Vec<String> = serde_json::from_value(cmd["exprs"].clone()).unwrap_or_default();
+    let args = cmd["args"] == true;
     let d = s.dbg.as_ref().unwrap();
     let mut out = serde_json::Map::new();
     for e in exprs {
         let parsed = bugstalker::ui::command::parser::expression::parser().parse(e.as_str()).into_result();
         let r = match parsed {
             Err(_) => json!({"parse_error": true}),
-            Ok(q) => match d.read_variable(q) {
+            Ok(q) => match if args { d.read_argument(q) } else { d.read_variable(q) } {
                 Ok(res) => json!({"ok": named(res)}),
                 Err(err) => json!({"error": format!("{err}")}),
             },
@@ -122,19 +123,20 @@ pub fn dqe(s: &mut Session, cmd: &Value) -> Value {
     json!({"ok": true, "results": out})
 }
 
-/// {"op":"vard","exprs":[..]}: `vard <expr>`: the program's own Debug implementation formats the value.
+/// {"op":"vard","exprs":[..],"args":bool}: `vard <expr>` / `argd <expr>`: the program's own Debug implementation formats the value.
 pub fn vard(s: &mut Session, cmd: &Value) -> Value {
     use chumsky::Parser;
     let exprs: Vec<String> = serde_json::from_value(cmd["exprs"].clone()).unwrap_or_default();
     let tid = s.dbg.as_ref().unwrap().ecx().pid_on_focus();
     let regs0 = nix::sys::ptrace::getregs(tid).ok();
+    let args = cmd["args"] == true;
     let d = s.dbg.as_ref().unwrap();
     let mut out = serde_json::Map::new();
     for e in exprs {
         let parsed = bugstalker::ui::command::parser::expression::parser().parse(e.as_str()).into_result();
         let r = match parsed {
             Err(_) => json!({"parse_error": true}),
-            Ok(q) => match d.read_variable(q) {
+            Ok(q) => match if args { d.read_argument(q) } else { d.read_variable(q) } {
                 Ok(res) => match res.first() {
                     Some(qr) => match std::panic::catch_unwind(std::panic::AssertUnwindSafe(|| bugstalker::debugger::call::fmt::call_debug_fmt(d, qr))) {
                         Ok(Ok(text)) => json!({"ok": text}),
